@@ -38,7 +38,9 @@ class Obj(ComplexModel):
     _type_info = [
         ('n', Integer), ('s', Unicode), ('b', Boolean), ('inner', Inner), ('arr', Array(Integer)),
         ('many', Integer.customize(max_occurs='unbounded')), ('tagged', Tagged),
-        ('alias', Unicode(sub_name='Alias')), ('opt', Integer),
+        # (a mandatory member under another element name; an attribute of the object that is called like an attribute of
+        # one of its children and is not sent)
+        ('alias', Unicode(sub_name='Alias', min_occurs=1)), ('opt', Integer), ('id', XmlAttribute(Integer)),
     ]
 
 
@@ -114,7 +116,8 @@ def matches(sx, got, o):
         return False
     ok = [sx.eq(got.n, o['n']), sx.eq(got.s, o['s']), sx.eq(got.b, o['b']), sx.eq(got.inner.v, o['inner']['v']),
           sx.eq(got.inner.w, o['inner']['w']), sx.eq(got.tagged.id, o['tagged']['id']),
-          sx.eq(got.tagged.name, o['tagged']['name']), sx.eq(got.alias, o['alias']), got.opt is None]
+          sx.eq(got.tagged.name, o['tagged']['name']), sx.eq(got.alias, o['alias']), got.opt is None,
+          got.id is None]             # an attribute of a child element is not an attribute of the object
     for key in ('arr', 'many'):
         g = getattr(got, key)
         if not o[key]:
